@@ -69,12 +69,19 @@ fn random_mat3(rng: &mut Rng) -> Matrix3<f32> {
         return Matrix3::identity();
     }
     let a = rng.uniform(0.0, std::f64::consts::TAU) as f32;
-    let (s, c) = a.sin_cos();
-    let sx = rng.uniform(0.5, 2.0) as f32;
+    let (mut s, mut c) = a.sin_cos();
+    // structured matrices: exact quarter turns (zeros in the linear part),
+    // no translation, a mirrored axis
+    if rng.chance(0.2) {
+        (s, c) = *rng.pick(&[(0.0f32, 1.0f32), (1.0, 0.0), (0.0, -1.0), (-1.0, 0.0)]);
+    }
+    let mut sx = rng.uniform(0.5, 2.0) as f32;
+    if rng.chance(0.15) {
+        sx = -sx;
+    }
     let sy = if rng.chance(0.5) { sx } else { rng.uniform(0.5, 2.0) as f32 };
     let shear = if rng.chance(0.3) { rng.uniform(-0.5, 0.5) as f32 } else { 0.0 };
-    let tx = rng.uniform(-0.5, 0.5) as f32;
-    let ty = rng.uniform(-0.5, 0.5) as f32;
+    let (tx, ty) = if rng.chance(0.2) { (0.0, 0.0) } else { (rng.uniform(-0.5, 0.5) as f32, rng.uniform(-0.5, 0.5) as f32) };
     // bottom row: usually (0,0,1); sometimes a homogeneous scale w != 1 or a
     // mildly projective row
     let (p0, p1, w) = match rng.below(6) {
